@@ -22,6 +22,7 @@ type Interp struct {
 	clk    *vh.Clock
 	loaded bool
 	soakN  int
+	comp   string // "none" | "pre" | "post": a generous Direct+Reject rule on the default statistic listed before / after the adaptive rule
 }
 
 func New() vh.Interp {
@@ -36,16 +37,31 @@ func (it *Interp) Reset() {
 	stat.ResetResourceNodeMap()
 	system_metric.SetSystemMemoryUsage(system_metric.NotRetrievedMemoryValue)
 	it.loaded = false
+	it.comp = "none"
 	it.clk.Sleeps = nil
 }
 
 func (it *Interp) load(r *flow.Rule) string {
-	// a later load in the same case reloads the resource's rule (a fresh *flow.Rule object every time)
+	// a later load in the same case reloads the resource's rules (fresh *flow.Rule objects every time)
 	it.loaded = true
-	if _, err := flow.LoadRules([]*flow.Rule{r}); err != nil {
+	rules := []*flow.Rule{r}
+	plain := &flow.Rule{Resource: res, TokenCalculateStrategy: flow.Direct, ControlBehavior: flow.Reject, Threshold: 1e9}
+	switch it.comp {
+	case "pre":
+		rules = []*flow.Rule{plain, r}
+	case "post":
+		rules = []*flow.Rule{r, plain}
+	}
+	if _, err := flow.LoadRules(rules); err != nil {
 		return "ok 0"
 	}
-	return fmt.Sprintf("ok %d", len(flow.GetRulesOfResource(res)))
+	n := 0
+	for _, x := range flow.GetRulesOfResource(res) {
+		if x.TokenCalculateStrategy != flow.Direct {
+			n++
+		}
+	}
+	return fmt.Sprintf("ok %d", n)
 }
 
 // soak: sequential single-token requests against a MemoryAdaptive+Reject rule (1 s window, clock frozen) while `flippers`
@@ -111,6 +127,9 @@ func (it *Interp) Step(t []string, op string) string {
 		t = t[:len(t)-1]
 	}
 	switch t[0] {
+	case "companion":
+		it.comp = t[1]
+		return ""
 	case "probe":
 		before := len(it.clk.Sleeps)
 		e, blk := sentinel.Entry(res, sentinel.WithBatchCount(uint32(vh.U(t[1]))))
